@@ -33,7 +33,11 @@ type Out struct {
 	// FailAt: the n-th WriteStringTo (1-based) returns an error; 0 = never.
 	FailAt int
 	Writes int
-	mu     *sync.Mutex // free mode only: the host's own lock around its buffer
+	// CancelAt: during the n-th WriteStringTo the host cancels the execution context, synchronously,
+	// from inside the host call (an exit()-style builtin); 0 = never. onCancel is set by whoever owns the context.
+	CancelAt int
+	onCancel func()
+	mu       *sync.Mutex // free mode only: the host's own lock around its buffer
 }
 
 type Chunk struct {
@@ -83,6 +87,12 @@ func (o *Out) write(s string) error {
 		sim.Logf("print %q", s)
 	}
 	o.Chunks = append(o.Chunks, Chunk{id, s})
+	if o.CancelAt > 0 && o.Writes == o.CancelAt && o.onCancel != nil {
+		if sim != nil {
+			sim.Fault("host-cancels-inside-host-call")
+		}
+		o.onCancel()
+	}
 	if sim != nil {
 		sim.Yield("host:print")
 	}
